@@ -105,23 +105,23 @@ def scenarios(ctx):
     for mode in ('sync', 'async'):
         # A. handshake: every way of (re)using a protocol object for connect()
         out.append(Std('handshake-%s' % mode, profile='pubsub', mode=mode, connects=[(True, 0, 4), (False, 2, 3)],
-                       reconnects=[(False, 2, 3)], pub_qos=(1,), api_after_close=True,
+                       reconnects=[(False, 2, 3)], pub_qos=(1,), api_after_close=True, rx_after_close=True,
                        budgets=dict(connect=2, connack=2, badconnack=1, reconn2=2, pub=1, tick=2, lose=1, rebuild=1,
                                     disconnect=1), closing=False))
         # B. established session: traffic, expiries, disconnect()/loss and API calls until the loss is reported
         out.append(Std('pub-%s' % mode, profile='pub', mode=mode, init=CONNECTED, reconnects=[(True, 0, 4)],
-                       pub_qos=(0, 1, 2), api_after_close=True,
+                       pub_qos=(0, 1, 2), api_after_close=True, rx_after_close=True,
                        budgets=dict(pub=2, ack=2 if q else 3, tick=2, lose=1, rebuild=1, disconnect=1, connect=1,
                                     connack=1, reconn2=1), closing=False))
         out.append(Std('sub-%s' % mode, profile='sub', mode=mode,
                        init=(('connect', 0, True, 2, 3), ('connack', 0, 0, False)),
-                       reconnects=[(True, 0, 4)], api_after_close=True,
+                       reconnects=[(True, 0, 4)], api_after_close=True, rx_after_close=True,
                        budgets=dict(sub=1, unsub=1, ack=1, tick=2 if q else 3, lose=1, disconnect=1, inpub=1 if q else 2,
                                     inrel=1, pingresp=1),
                        inpubs=inp, inrels=((2,),), closing=False))
         out.append(Std('pubsub-ka-%s' % mode, profile='pubsub', mode=mode,
                        init=(('connect', 0, False, 2, 4), ('connack', 0, 0, False)),
-                       reconnects=[(False, 2, 4)], pub_qos=(2,), api_after_close=True,
+                       reconnects=[(False, 2, 4)], pub_qos=(2,), api_after_close=True, rx_after_close=True,
                        budgets=dict(pub=1, sub=1, ack=1 if q else 2, tick=2 if q else 3, lose=1, disconnect=1, inpub=1, inrel=1,
                                     rebuild=1, connect=1, connack=1),
                        inpubs=inp[1:], inrels=((2,),), closing=False))
